@@ -37,7 +37,9 @@ import (
 
 // V is the JSON form of a Starlark value (or of an absent argument / an outcome).
 type V struct {
-	T string  `json:"t"`           // none bool int str bytes list tuple float range err panic
+	T string  `json:"t"`           // none bool int str bytes list tuple float range iter err panic nil
+	// iter: an iterator view of the string / bytes S; M names it: codepoints, codepoint_ords, elems, elem_ords (string
+	// methods) or belems (bytes.elems).  codepoints, codepoint_ords and belems have no Len.
 	I string  `json:"i,omitempty"` // int: decimal
 	B bool    `json:"b,omitempty"`
 	S string  `json:"s,omitempty"` // str, bytes: hex
@@ -76,6 +78,7 @@ func vTuple(l ...V) V      { return V{T: "tuple", L: l} }
 func vFloat() V            { return V{T: "float"} }
 func vF(f float64) V       { return V{T: "float", F: strconv.FormatFloat(f, 'g', -1, 64)} }
 func vRange(a, b, c int64) V { return V{T: "range", R: []int64{a, b, c}} }
+func vIter(kind, s string) V { return V{T: "iter", M: kind, S: hex.EncodeToString([]byte(s))} }
 
 func (v V) str() string { b, _ := hex.DecodeString(v.S); return string(b) }
 func (v V) float() float64 {
@@ -148,6 +151,21 @@ func toStarlark(v V) starlark.Value {
 		return el
 	case "float":
 		return starlark.Float(v.float())
+	case "iter":
+		var recv starlark.HasAttrs = starlark.String(v.str())
+		name := v.M
+		if name == "belems" {
+			recv, name = starlark.Bytes(v.str()), "elems"
+		}
+		m, err := recv.Attr(name)
+		if err != nil || m == nil {
+			panic("toStarlark: no iterator view " + v.M)
+		}
+		r, err := starlark.Call(thread, m, nil, nil)
+		if err != nil {
+			panic(err)
+		}
+		return r
 	case "range":
 		r, err := starlark.Call(thread, prelude["mkrange"], starlark.Tuple{starlark.MakeInt64(v.R[0]), starlark.MakeInt64(v.R[1]), starlark.MakeInt64(v.R[2])}, nil)
 		if err != nil {
@@ -161,8 +179,8 @@ func toStarlark(v V) starlark.Value {
 // fromStarlark projects a result; a range result is projected to the list of its elements.
 func fromStarlark(x starlark.Value) V {
 	if x == nil {
-		// a nil element: only a panicking operation can leave one behind
-		return V{T: "float", M: "nil Value"}
+		// a nil element: no operation may return or leave one behind
+		return V{T: "nil"}
 	}
 	switch x := x.(type) {
 	case starlark.NoneType:
@@ -233,8 +251,30 @@ func firstLine(s string) string {
 	return s
 }
 
-// run executes the case against the implementation and fills Obs / After.
+func hasNil(v V) bool {
+	if v.T == "nil" {
+		return true
+	}
+	for _, e := range v.L {
+		if hasNil(e) {
+			return true
+		}
+	}
+	return false
+}
+
+// run executes the case against the implementation and fills Obs / After; a nil
+// element anywhere inside the returned value (or the receiver afterwards) is
+// reported like a panic: no Starlark value may contain one.
 func run(c *Case) {
+	run1(c)
+	if c.Obs.T != "panic" && (hasNil(c.Obs) || (c.After != nil && hasNil(*c.After))) {
+		b, _ := json.Marshal(c.Obs)
+		c.Obs = V{T: "panic", M: "nil element inside the returned value: " + string(b)}
+	}
+}
+
+func run1(c *Case) {
 	switch c.Op {
 	case "slice":
 		x := toStarlark(*c.X)
@@ -388,6 +428,9 @@ func (s *sink) do(c Case) {
 		pe = s.pyEvery[""]
 	}
 	// deterministic stride with a per-class random phase
+	if c.Op == "builtin" && (c.Name == "list" || c.Name == "tuple") {
+		ce = 0 // no Coq model: Go copy of the specification and CPython
+	}
 	if c.Op == "sort" && !sortIntKeys(&c) {
 		ce = 0 // the Coq model of sorted / min / max works on integer keys
 	}
@@ -443,6 +486,8 @@ func main() {
 	lap("cpython-only")
 	genSort(s, quick)
 	lap("sort")
+	genIterables(s, quick)
+	lap("iterables")
 	riskyParent(s, quick, *seed)
 	lap("risky")
 	type kv struct {
